@@ -49,9 +49,10 @@ pub fn gen_outputs(rng: &mut Rng) -> Vec<IOStatus> {
     v.into_iter().map(IOStatus::Party).collect()
 }
 
-/// plaintext result of the source context (instantiated + inlined, no MPC)
+/// plaintext result of the source context: custom operations instantiated, Call / Iterate evaluated
+/// natively — neither the inliner nor the optimizer (both are under test) touch the reference
 pub fn plain_eval(c: &Context, inputs: Vec<Value>, seed: [u8; 16]) -> Result<Value> {
-    let c2 = prepare_context(c.clone(), inline_cfg(0), SimpleEvaluator::new(None)?, false)?.get_context();
+    let c2 = ciphercore_base::custom_ops::run_instantiation_pass(c.clone())?.get_context();
     let mut e = SimpleEvaluator::new(Some(seed))?;
     e.preprocess(&c2)?;
     e.evaluate_graph(c2.get_main_graph()?, inputs)
@@ -214,6 +215,11 @@ pub fn three_party(cc: &Context, ins: &[IOStatus], inputs: &[Value], rng: &mut R
 
 /// Judge a three-party run against the plaintext result. Returns None if fine, else a description.
 pub fn judge3(run: &Run3, expected: &Value, out_t: &Type, outs: &[IOStatus]) -> Option<String> {
+    judge3_with(run, out_t, outs, &|v| v == expected)
+}
+
+/// like `judge3`, with the caller's acceptance predicate for the (reconstructed) result
+pub fn judge3_with(run: &Run3, out_t: &Type, outs: &[IOStatus], accept: &dyn Fn(&Value) -> bool) -> Option<String> {
     if outs.is_empty() {
         let mut slots: Vec<Vec<Option<Value>>> = vec![vec![None; 3]; 3];
         for p in 0..3 {
@@ -238,14 +244,19 @@ pub fn judge3(run: &Run3, expected: &Value, out_t: &Type, outs: &[IOStatus]) -> 
         }
         let rec = TypedValue::new(tuple_type(vec![out_t.clone(); 3]), Value::from_vector(shares)).and_then(|tv| tv.secret_share_reveal());
         match rec {
-            Ok(tv) if tv.value == *expected => None,
+            Ok(tv) if accept(&tv.value) => None,
             _ => Some("shares held by the parties do not reconstruct the result".into()),
         }
     } else {
         for o in outs {
             if let IOStatus::Party(p) = o {
-                if run.out[*p as usize].as_ref() != Some(expected) {
+                if !run.out[*p as usize].as_ref().map(|v| accept(v)).unwrap_or(false) {
                     return Some(format!("output party {} does not end with the result", p));
+                }
+                if let IOStatus::Party(q) = &outs[0] {
+                    if run.out[*p as usize] != run.out[*q as usize] {
+                        return Some(format!("output parties {} and {} end with different results", q, p));
+                    }
                 }
             }
         }
